@@ -945,7 +945,7 @@ def shrink(case):
 # entry points and validators on the abstract descriptions of ModelV.v / Chain.v
 
 IDXK = {"int": "KInt64", "range": "KRange", "period": "KPeriod", "datetime": "KDatetime",
-        "other": "KOther", "ndarray": "KNdarray"}
+        "other": "KOtherIndex", "ndarray": "KNdarray"}
 FRESH = "{| e_fitted := false; e_fh := None; e_log := [] |}"
 
 
